@@ -472,7 +472,12 @@ func (c *caseCtx) flushKind(maxT *int64, kind int) {
 	if kind == 3 {
 		mode = 6 // every series gets fresh and late rows: an ordered and an out-of-order file with the same sequence
 	}
+	var sidList []uint64
 	for sid := range sids {
+		sidList = append(sidList, sid)
+	}
+	sort.Slice(sidList, func(i, j int) bool { return sidList[i] < sidList[j] }) // map order must not steer the PRNG
+	for _, sid := range sidList {
 		n := c.r.Range(1, 12)
 		if kind == 3 {
 			n = c.r.Range(6, 12)
